@@ -908,6 +908,15 @@ func hasS(xs []string, x string) bool {
 	return false
 }
 
+// ovVal is the value a stage gives to V / w: now and then the empty string (an override with the
+// empty value is an override: the task's own value must not show through it)
+func ovVal(prefix string, s, i int) string {
+	if (i+s)%4 == 0 {
+		return ""
+	}
+	return fmt.Sprintf("%s%d", prefix, s)
+}
+
 func (e *eng) stageAPI(c stgCase, i int) {
 	t0 := task.FromCommands("true")
 	t0.Name = "t"
@@ -919,10 +928,10 @@ func (e *eng) stageAPI(c stgCase, i int) {
 		st := &scheduler.Stage{Name: fmt.Sprintf("s%d", s), Task: t0, Variables: variables.FromMap(map[string]string{".Stage.Name": fmt.Sprintf("s%d", s)})}
 		if hasS(c.Ov[s-1], "env") {
 			// V overrides the task's own value, P is defined at stage level only
-			st.Env = variables.FromMap(map[string]string{"V": fmt.Sprintf("v%d", s), "P": fmt.Sprintf("p%d", s)})
+			st.Env = variables.FromMap(map[string]string{"V": ovVal("v", s, i), "P": fmt.Sprintf("p%d", s)})
 		}
 		if hasS(c.Ov[s-1], "vars") {
-			st.Variables.Set("w", fmt.Sprintf("w%d", s))
+			st.Variables.Set("w", ovVal("w", s, i))
 		}
 		if hasS(c.Ov[s-1], "dir") {
 			st.Dir = fmt.Sprintf("/d%d", s)
@@ -966,11 +975,11 @@ func (e *eng) stageAPI(c stgCase, i int) {
 		}
 		want := map[string]string{"V": "v0", "A": "a0", "w": "w0", "B": "b0", "dir": "/d0", "P": ""}
 		if hasS(c.Ov[s-1], "env") {
-			want["V"] = fmt.Sprintf("v%d", s)
+			want["V"] = ovVal("v", s, i)
 			want["P"] = fmt.Sprintf("p%d", s)
 		}
 		if hasS(c.Ov[s-1], "vars") {
-			want["w"] = fmt.Sprintf("w%d", s)
+			want["w"] = ovVal("w", s, i)
 		}
 		if hasS(c.Ov[s-1], "dir") {
 			want["dir"] = fmt.Sprintf("/d%d", s)
@@ -1029,10 +1038,10 @@ func (e *eng) stageBin(c stgCase, i int) {
 			fmt.Fprintf(&y, "      depends_on: [%s]\n", strings.Join(ds, ", "))
 		}
 		if hasS(c.Ov[s-1], "env") {
-			fmt.Fprintf(&y, "      env:\n        V: v%d\n        P: p%d\n", s, s)
+			fmt.Fprintf(&y, "      env:\n        V: %s\n        P: p%d\n", yq(ovVal("v", s, i)), s)
 		}
 		if hasS(c.Ov[s-1], "vars") {
-			fmt.Fprintf(&y, "      variables:\n        w: w%d\n", s)
+			fmt.Fprintf(&y, "      variables:\n        w: %s\n", yq(ovVal("w", s, i)))
 		}
 		if hasS(c.Ov[s-1], "dir") {
 			fmt.Fprintf(&y, "      dir: %s\n", yq(filepath.Join(d, fmt.Sprintf("d%d", s))))
@@ -1049,7 +1058,8 @@ func (e *eng) stageBin(c stgCase, i int) {
 	// the pipeline, then another pipeline and a direct run of the same task in the same process
 	outdir := filepath.Join(d, "out")
 	_ = os.MkdirAll(outdir, 0o755)
-	res := e.run(d, []string{"OUTDIR=" + outdir}, "--raw", "p", "q", "t", "r", "t2")
+	// (the parent process has a V of its own: it lies below every level of the configuration)
+	res := e.run(d, []string{"OUTDIR=" + outdir, "V=v-of-the-parent"}, "--raw", "p", "q", "t", "r", "t2")
 	detail := map[string]interface{}{"yaml": y.String(), "stdout": res.Stdout, "stderr": tailS(res.Stderr, 500), "exit": res.Exit}
 	add := func(kind, what string) {
 		e.rep.Add(core.Finding{Prop: "C08", Key: "C08:bin:" + kind, What: what + fmt.Sprintf(" [overrides per stage %v, deps %v]", c.Ov, c.Deps), Detail: detail})
@@ -1079,10 +1089,10 @@ func (e *eng) stageBin(c stgCase, i int) {
 			name = "q1"
 		} else {
 			if hasS(c.Ov[s-1], "env") {
-				v = fmt.Sprintf("v%d", s)
+				v = ovVal("v", s, i)
 			}
 			if hasS(c.Ov[s-1], "vars") {
-				w = fmt.Sprintf("w%d", s)
+				w = ovVal("w", s, i)
 			}
 			if hasS(c.Ov[s-1], "dir") {
 				dir = fmt.Sprintf("d%d", s)
